@@ -33,6 +33,14 @@ func (o *Operations) Update(
 		return []*tar.Header{}, err
 	}
 
+	// Release the drive again if we return before the writer has been closed
+	writerClosed := false
+	defer func() {
+		if !writerClosed {
+			_ = o.backend.CloseWriter()
+		}
+	}()
+
 	dirty := false
 	tw, cleanup, err := tarext.NewTapeWriter(writer.Drive, writer.DriveIsRegular, o.pipes.RecordSize)
 	if err != nil {
@@ -279,12 +287,15 @@ func (o *Operations) Update(
 		return []*tar.Header{}, err
 	}
 
+	writerClosed = true
 	if err := o.backend.CloseWriter(); err != nil {
 		return []*tar.Header{}, err
 	}
 
 	reader, err := o.backend.GetReader()
 	if err != nil {
+		_ = o.backend.CloseReader() // A failed GetReader leaves the drive locked
+
 		return []*tar.Header{}, err
 	}
 	defer o.backend.CloseReader()
